@@ -47,7 +47,9 @@ def eff_seed(seed):
 # so that a direct upgrade rolls the ChangeField into the AddField.  Truthy
 # and falsy initial values.
 CORE = [('Integer', 0), ('Integer', 5), ('Char', ''), ('Char', 'x'),
-        ('Boolean', False), ('Boolean', True)]
+        ('Boolean', False), ('Boolean', True),
+        # a data evolution shipped as an .sql file between two Python ones
+        ('sqlfile', None)]
 
 
 def core_history(i):
@@ -64,11 +66,24 @@ def core_history(i):
          {'op': 'add_field', 'app': 'app1', 'model': 'A', 'name': 'g2',
           'fdef': {'kind': 'Integer', 'null': True}}],
     ]
+    if kind == 'sqlfile':
+        steps = [
+            [{'op': 'add_field', 'app': 'app1', 'model': 'A', 'name': 'g1',
+              'fdef': {'kind': 'Integer', 'null': True}}],
+            {'sqlfile': 'UPDATE "app1_a" SET "v" = "v";\n'},
+            [{'op': 'add_field', 'app': 'app1', 'model': 'A', 'name': 'g2',
+              'fdef': {'kind': 'Integer', 'null': True}}],
+        ]
     h = histories.History()
     cur = {'app1': {'A': {'fields': [['v', {'kind': 'Integer'}]],
                           'meta': {}}}}
     h.specs.append(cur)
     for edits in steps:
+        if isinstance(edits, dict):
+            h.specs.append(cur)
+            h.steps.append([])
+            h.texts.append({'app1': edits})
+            continue
         texts = []
         for e in edits:
             texts.append(str(E.to_mutation(cur, e)))
@@ -123,8 +138,8 @@ def run_case(desc):
     nmax = 3 if desc.get('tier') == 'quick' else 4
     n = rng.randint(2, nmax)
     if desc.get('mode') == 'core':
-        apps, n = ('app1',), 2
         h = core_history(desc['i'])
+        apps, n = ('app1',), len(h.specs) - 1
     else:
         h = histories.gen_history(rng, n, apps=apps)
     # every third case: the observed database is `other`, next to a
